@@ -1118,6 +1118,46 @@ fn beyond_image_sessions(tag: &'static str) -> Vec<(DbgCase, &'static str)> {
     out
 }
 
+/// An image of more than 32,768 words whose subroutine lies 0x8001 words after the origin: word
+/// distances from the origin that do not fit a signed 16-bit number.  Predefined and run-time
+/// breakpoints out there, stepping into / over / out of the far call, writes to the far data word,
+/// `reset` at the end (all 65,536 words are compared after it by D12's verdict).
+fn far_image_sessions(tag: &'static str) -> Vec<(DbgCase, &'static str)> {
+    let mut out = Vec::new();
+    let mut rng = Rng::new(0xFA12);
+    for (orig, gap) in [(0x3000u16, 0x8001usize), (0x0100, 0xC000), (0x7FFF, 0x7DF0)] {
+        let far = orig.wrapping_add(gap as u16);
+        // ld r0 far_ptr / jsrr r0 / halt / far_ptr / zeros … / far: add r1 r1 #1 / st r1 data / ret / data
+        let mut words = vec![0x2002u16, 0x4000, 0xF025, far];
+        words.resize(gap, 0);
+        words.extend([0x1261, 0x3201, 0xC1C0, 0x0000]);
+        let at = |k: usize| Loc::Addr(orig.wrapping_add(k as u16));
+        for variant in 0..4 {
+            let p = Prog { orig, words: words.clone(), inp: vec![], stack: false, minimal: true, kind: "far-image" };
+            let mut c = decorate(&mut rng, &p, tag, vec![], 60_000);
+            c.labels.clear();
+            c.breaks = if variant == 0 { vec![gap, gap + 2] } else { vec![] };
+            let mut cmds = Vec::new();
+            match variant {
+                0 => cmds.extend([Cmd::BreakList, Cmd::Continue, Cmd::Registers, Cmd::Continue, Cmd::Registers, Cmd::StepOut, Cmd::Registers, Cmd::BreakRemove(at(gap)), Cmd::BreakList]),
+                1 => cmds.extend([
+                    Cmd::BreakAdd(at(gap + 1)), Cmd::BreakAdd(at(gap - 1)), Cmd::BreakList, Cmd::Continue, Cmd::Registers, Cmd::StepInto(1),
+                    Cmd::PrintMem(at(gap + 3)), Cmd::BreakRemove(at(gap + 1)), Cmd::Continue, Cmd::Registers,
+                ]),
+                2 => cmds.extend([Cmd::StepInto(3), Cmd::Registers, Cmd::PrintMem(at(gap + 3)), Cmd::StepOut, Cmd::Registers, Cmd::PrintMem(at(gap + 3))]),
+                _ => cmds.extend([
+                    Cmd::StepInto(1), Cmd::StepOver, Cmd::Registers, Cmd::Goto(at(gap)), Cmd::StepInto(2), Cmd::Registers,
+                    Cmd::PrintMem(at(gap + 3)), Cmd::PrintMem(at(gap + 4)), Cmd::BreakAdd(at(gap + 4)), Cmd::BreakList,
+                ]),
+            }
+            cmds.extend([Cmd::Reset, Cmd::Exit]);
+            c.cmds = cmds;
+            out.push((c, "far-image"));
+        }
+    }
+    out
+}
+
 /// Breakpoints a power-of-two stride apart in a long straight-line program: add both (or declare
 /// them with `.break`), remove one, run into the other — a lookup structure keyed by part of the
 /// address (hash, bitmap, page) must not lose the survivor.
@@ -1593,6 +1633,16 @@ pub fn run_prop(o: &crate::Opts, tag: &'static str) {
             *verdicts.entry(v.clone()).or_default() += 1;
             sink.put(&c.request(), &format!("{} | {}", obs.line, v));
         }
+    }
+    for (i, (c, kind)) in far_image_sessions(tag).into_iter().enumerate() {
+        if (i + 9) % o.nshards != o.shard {
+            continue;
+        }
+        let obs = run_debug(&mut cap, &c);
+        let v = if obs.line == "panic" { "-".to_string() } else { verdict(&mut cap, tag, &c, &obs) };
+        *kinds.entry(format!("directed-{}:{}", kind, obs.line.split(' ').next().unwrap_or(""))).or_default() += 1;
+        *verdicts.entry(v.clone()).or_default() += 1;
+        sink.put(&c.request(), &format!("{} | {}", obs.line, v));
     }
     if o.shard == 7 % o.nshards && (tag == "D10" || tag == "D11") {
         for (c, kind) in beyond_image_sessions(tag) {
